@@ -105,7 +105,7 @@ def join(ops):
 # ---------------------------------------------------------------------------------------------------------------- families
 def fam_types(rng, out, tier):
     """per type x value: parameter and return value round trip, every reader, through both tables"""
-    reps = 2 if tier == "quick" else 6
+    reps = 2 if tier == "quick" else 12
     for _ in range(reps):
         for t in TNAMES:
             lat = TYPES[t][2]
@@ -172,7 +172,7 @@ def in_range(t, v):
 
 
 def fam_data(rng, out, tier):
-    n = 200 if tier == "quick" else 2000
+    n = 200 if tier == "quick" else 4000
     for _ in range(n):
         ops = []
         for _k in range(rng.randrange(2, 9)):
@@ -195,7 +195,7 @@ def fam_data(rng, out, tier):
 
 
 def fam_outputs(rng, out, tier):
-    n = 300 if tier == "quick" else 3000
+    n = 300 if tier == "quick" else 6000
     for _ in range(n):
         sc = rng.choice(SCOPES)
         f = rng.choice(FUNS)
@@ -244,7 +244,7 @@ def fam_outputs(rng, out, tier):
 
 def fam_flow(rng, out, tier):
     """order, counts, ignore, enable/disable, scopes interleaved, readers after the support was switched"""
-    n = 900 if tier == "quick" else 10000
+    n = 900 if tier == "quick" else 25000
     for _ in range(n):
         ops = []
         scs = [rng.choice(SCOPES) for _k in range(2)]
@@ -470,9 +470,9 @@ def shrink(s):
 
 
 def project(o, flavour):
-    """model vs implementation: the model (coq/C19_Model.v) has exact semantics only for scenarios without checked actual calls
-    (class :exact, decided by the same syntactic rule in the model and here); for every other scenario the comparison is the
-    agreement of the two halves, which is what the property constrains."""
+    """model vs implementation: the semantics of the C++ machinery is a parameter of the model (theorem C19_equiv_obs holds for every
+    machine), so what the extracted model predicts of an observation is that its two halves are identical -- which is exactly what
+    the property constrains; an observation whose halves differ is kept verbatim (and never equals the model's)."""
     c, x = halves(o)
     if c is None:
         return o
@@ -516,7 +516,8 @@ def evidence_extra(cov):
 
 LEVEL_TEXT = ("Machine-checked (Coq) theorems over a wiring model REGENERATED FROM THE SOURCE on every run (field order and signatures of "
               "the three C structs, the three positional initialisers, the body of every forwarder: C++ method, receiver, casts, default "
-              "handling; the type-name dispatch of getMockValueCFromNamedValue): every table position forwards to the C++ operation its "
+              "handling; the type-name dispatch of getMockValueCFromNamedValue; the comparator/copier adaptors; the C++ definitions of the "
+              "...OrDefault methods in MockSupport.cpp / MockActualCall.cpp): every table position forwards to the C++ operation its "
               "field name and signature denote, value conversion to the C tagged union is exact, and for every valid C scenario the "
               "sequence of C++ operations reached through the tables equals its direct C++ translation (for any semantics of the C++ "
               "machinery). Tied to the real code by an implementation-vs-implementation differential run: each generated scenario is "
@@ -528,4 +529,4 @@ LEVEL_NOTE = ("Trusted: Coq kernel, the translator-lite plugin tools/gen/C19.py 
               "is the agreement of the two halves. Not covered: tracing, onObject (absent from the C interface), NULL names, "
               "removeAllComparatorsAndCopiers while custom-type values are alive, crashOnFailure(non-zero), CPPUTEST_USE_LONG_LONG=0.")
 TECHNIQUE = "Coq proof over wiring tables regenerated from source + C-vs-C++ differential execution of generated scenarios (same scenario through both interfaces)"
-READY = False
+READY = True
